@@ -45,6 +45,7 @@ pub struct Server {
     paging_pos: BTreeMap<Vec<u8>, usize>,
     paging_rng: Rng,
     last_emit_ms: u64,
+    page_index: BTreeMap<String, usize>,
 }
 
 pub fn request_token(op: &ReqOp) -> Option<String> {
@@ -87,6 +88,7 @@ impl Server {
             paging_pos: BTreeMap::new(),
             paging_rng: Rng::new(cookie_seed),
             last_emit_ms: 0,
+            page_index: BTreeMap::new(),
         }
     }
 
@@ -153,12 +155,30 @@ impl Server {
         let id = req.id;
         let pos = if cookie.is_empty() { 0 } else { self.paging_pos.get(&cookie).copied().unwrap_or(pm.n) };
         let first = cookie.is_empty();
+        let page_ix = {
+            let e = self.page_index.entry(token.to_string()).or_insert(0);
+            if first {
+                *e = 0;
+            }
+            let v = *e;
+            *e += 1;
+            v
+        };
+        if pm.stall_at_page == Some(page_ix) {
+            world::ev(EvKind::Note(format!("page-stalled {token} {page_ix}")));
+            return;
+        }
         let mut take = if !pm.supports_paging || size <= 0 { pm.n - pos } else { (size as usize).min(pm.n - pos) };
         if pm.cap > 0 && pm.supports_paging {
             take = take.min(pm.cap);
         }
         if first && pm.empty_first_page && pm.supports_paging && pm.n > 0 {
             take = 0;
+        }
+        if pm.supports_paging {
+            if let Some(sz) = pm.page_sizes.get(page_ix) {
+                take = (*sz).min(pm.n - pos);
+            }
         }
         let mut t = now;
         for k in pos..pos + take {
@@ -176,7 +196,7 @@ impl Server {
         }
         let newpos = pos + take;
         let mut ctrls = pm.other_ctrls.clone();
-        let more = newpos < pm.n;
+        let more = newpos < pm.n || (pm.extra_empty_last_page && pm.supports_paging && take > 0 && newpos == pm.n);
         if pm.supports_paging {
             let ck = if more {
                 let len = 1 + self.paging_rng.usize(64);
